@@ -62,11 +62,11 @@ struct SymIq {
     unsigned effNs(int i) const { return ns[i] == NS_NONE ? unsigned(NS_CLIENT) : ns[i]; }
     bool firstIs(unsigned t, unsigned n) const { return nch >= 1 && tag[0] == t && effNs(0) == n; }
 };
-// choice k of the structural case split (see spec.py): without -DVP_CASE everything is an ordinary symbolic input
-static void symIq(SymIq &q, bool hasFrom, unsigned maxChildren, const QString &iqTag = L("iq"))
+// ty (IQ type class) and hasFrom are fixed by the caller (one switch branch each, see DISPATCH12); everything else is symbolic
+static void symIq(SymIq &q, unsigned ty, bool hasFrom, unsigned maxChildren, const QString &iqTag = L("iq"))
 {
     q.iq = el(iqTag, L("jabber:client"));
-    q.ty = vp_case_u(0, 8); vp_assume(q.ty < NTY);
+    q.ty = ty;
     vp_c08_pick_type(&q.type, q.ty);
     if (q.ty == TY_GARBAGE) vp_assume(!(q.type == L("get")) && !(q.type == L("set")) && !(q.type == L("result")) && !(q.type == L("error")));
     attr(q.iq, L("type"), q.type);
